@@ -797,6 +797,112 @@ def _a7_slot_unit(u: Unit):
     return out
 
 
+def _a7_validated_unit(prog: Program, u: Unit):
+    """Validated single-value caches:
+
+        key = <expr over locals>
+        if key != self._key:            # (or `==` with the work in the else arm)
+            self._value = E
+            self._key = key
+        ... self._value ...
+
+    E may depend only on what the key compares: every local name E reads must be a component
+    of the key, or be computed from such components and from attributes that nobody rewrites
+    after construction.  [(store stmt of the value, value attr, key attr, missing names)]"""
+    out = []
+    if u.cls is None:
+        return out
+    ci = prog.class_of_unit(u)
+    if ci is None:
+        return out
+    fam = _family(prog, ci)
+    rewritten = set()
+    for c in fam:
+        for mname, mu in c.methods.items():
+            if mname in ("__init__", "__new__"):
+                continue
+            rewritten |= _self_writes(mu.node)
+    du = None
+    for x in walk_local(u.node):
+        if not (isinstance(x, ast.If) and isinstance(x.test, ast.Compare) and len(x.test.ops) == 1
+                and isinstance(x.test.ops[0], (ast.NotEq, ast.Eq, ast.Is, ast.IsNot))):
+            continue
+        sides = [x.test.left, x.test.comparators[0]]
+        attr_side = [s_ for s_ in sides if (dotted(s_) or "").startswith("self.")
+                     and (dotted(s_) or "").count(".") == 1]
+        if len(attr_side) != 1:
+            continue
+        key_attr = dotted(attr_side[0])
+        key_expr = [s_ for s_ in sides if s_ is not attr_side[0]][0]
+        differ = x.body if isinstance(x.test.ops[0], (ast.NotEq, ast.IsNot)) else x.orelse
+        stores = [st for b in differ for st in ast.walk(b) if isinstance(st, ast.Assign)
+                  and len(st.targets) == 1 and (dotted(st.targets[0]) or "").startswith("self.")]
+        key_store = [st for st in stores if dotted(st.targets[0]) == key_attr
+                     and norm(st.value) == norm(key_expr)]
+        val_stores = [st for st in stores if dotted(st.targets[0]) != key_attr]
+        if not key_store or not val_stores:
+            continue
+        if du is None:
+            du = DefUse(u, CFG(u.node, exc_edges=False))
+        nid_k = du.node_of(x.test)
+        # components of the key: the names the compared expression is made of
+        comp = set()
+        kx = key_expr
+        if isinstance(kx, ast.Name):
+            d = du.unique_value(nid_k, kx.id)
+            if d is not None and d.value is not None and not d.sel:
+                kx = d.value
+        for y in ast.walk(kx):
+            if isinstance(y, ast.Name) and isinstance(y.ctx, ast.Load):
+                comp.add(y.id)
+            elif isinstance(y, ast.Attribute) and (dotted(y) or "").startswith("self."):
+                comp.add(dotted(y))
+
+        def covered(name_or_attr, at, depth=0) -> bool:
+            if name_or_attr in comp:
+                return True
+            if name_or_attr.startswith("self."):
+                return ".".join(name_or_attr.split(".")[:2]) not in rewritten
+            if depth > 5:
+                return False
+            ds = du.reaching(at, name_or_attr)
+            if not ds:
+                return True            # global / builtin
+            for d in ds:
+                if d.value is None or d.sel and d.sel[0][0] == "param":
+                    return False
+                for y in ast.walk(d.value):
+                    if isinstance(y, ast.Name) and isinstance(y.ctx, ast.Load) and y.id != name_or_attr \
+                            and y.id not in ("self", "cls"):
+                        if not covered(y.id, d.node, depth + 1):
+                            return False
+                    elif isinstance(y, ast.Attribute) and (dotted(y) or "").startswith("self."):
+                        if not covered(dotted(y), d.node, depth + 1):
+                            return False
+            return True
+        for st in val_stores:
+            nid = du.node_of(st)
+            bound_here = set()
+            for y in ast.walk(st.value):
+                if isinstance(y, (ast.ListComp, ast.GeneratorExp, ast.SetComp, ast.DictComp)):
+                    for g_ in y.generators:
+                        for t_ in ast.walk(g_.target):
+                            if isinstance(t_, ast.Name):
+                                bound_here.add(t_.id)
+            missing = []
+            for y in ast.walk(st.value):
+                if isinstance(y, ast.Name) and isinstance(y.ctx, ast.Load) and y.id not in bound_here \
+                        and y.id not in ("self", "cls"):
+                    if not covered(y.id, nid):
+                        missing.append(y.id)
+                elif isinstance(y, ast.Attribute) and (dotted(y) or "").startswith("self.") \
+                        and dotted(y).count(".") == 1:
+                    if not covered(dotted(y), nid):
+                        missing.append(dotted(y))
+            out.append((st, dotted(st.targets[0]), key_attr, sorted(set(missing))))
+    return out
+
+
 def memo_findings(prog: Program, units):
     """All memo idioms found in `units`: [(unit, node, construct, missing list)] - dict memos
     (key completeness), lazily initialised attributes, memos reached through a closure."""
@@ -814,6 +920,9 @@ def memo_findings(prog: Program, units):
         for (st, attr, covered, missing) in _a7_slot_unit(u):
             out.append((u, st, f"single-slot memo {attr} <- {norm(st.value)[:40]} (compared on "
                                f"{covered})", missing))
+        for (st, attr, key_attr, missing) in _a7_validated_unit(prog, u):
+            out.append((u, st, f"cache {attr} <- {norm(st.value)[:40]} validated by {key_attr}",
+                        missing))
     return out
 
 
@@ -942,6 +1051,14 @@ def a7(prog: Program, chk: Check) -> None:
                         "value validated against its arguments" if not missing else
                         f"{attr} is computed once from {missing} and then reused: a later call "
                         f"with a different {missing[0]} is served the first value", st)
+        for (st, attr, key_attr, missing) in _a7_validated_unit(prog, u):
+            n += 1
+            chk.saw(u)
+            chk.add("A7", u, f"cache {attr} <- {norm(st.value)[:40]} validated by {key_attr}",
+                    not missing,
+                    "the value is a function of what the key compares" if not missing else
+                    f"the cached value also depends on {missing}, which the key does not compare: "
+                    f"it is reused although {missing[0]} has changed", st)
         for (st, attr, covered, missing) in _a7_slot_unit(u):
             n += 1
             chk.saw(u)
